@@ -1591,6 +1591,14 @@ func evalBin(op token.Token, a, b SV) SV {
 			}
 			return symBool(eq)
 		}
+		// two package-level sentinels (error variables): equal exactly when they are the same variable
+		if a.K == "ref" && b.K == "ref" && a.Known && b.Known && !a.Nil && !b.Nil && strings.HasPrefix(a.Desc, "global:") && strings.HasPrefix(b.Desc, "global:") {
+			eq := a.Desc == b.Desc
+			if op == token.NEQ {
+				eq = !eq
+			}
+			return symBool(eq)
+		}
 		if (a.K == "str" || b.K == "str") && a.Len != nil && b.Len != nil && a.Len.Known && b.Len.Known && a.Len.N != b.Len.N {
 			return symBool(op == token.NEQ)
 		}
